@@ -102,6 +102,9 @@ type fakeIDP struct {
 	loginNoRT      bool
 	loginExpiresIn string
 	badSeq         int
+	// one-shot: the next refresh grant is processed (tokens rotated, logged with mode "dropped") and the connection closed before a
+	// response byte is written
+	dropAfterGrant bool
 }
 
 type rtInfo struct {
@@ -204,6 +207,30 @@ func (p *fakeIDP) ServeHTTP(w http.ResponseWriter, r *http.Request) {
 			r.ParseForm()
 			p.preToken(r) // (outside the provider's lock: a driver may run further requests while this one is in flight)
 		}
+		r.ParseForm()
+		p.mu.Lock()
+		drop := p.dropAfterGrant && r.PostForm.Get("grant_type") == "refresh_token"
+		if drop {
+			p.dropAfterGrant = false
+		}
+		p.mu.Unlock()
+		if drop {
+			n := len(p.log)
+			p.token(&discardWriter{h: http.Header{}}, r)
+			p.mu.Lock()
+			for i := n; i < len(p.log); i++ {
+				if p.log[i].Mode == "" {
+					p.log[i].Mode = "dropped"
+				}
+			}
+			p.mu.Unlock()
+			if hj, ok := w.(http.Hijacker); ok {
+				if c, _, err := hj.Hijack(); err == nil {
+					c.Close()
+				}
+			}
+			return
+		}
 		p.token(w, r)
 	case "/par":
 		p.par(w, r)
@@ -211,6 +238,12 @@ func (p *fakeIDP) ServeHTTP(w http.ResponseWriter, r *http.Request) {
 		http.NotFound(w, r)
 	}
 }
+
+type discardWriter struct{ h http.Header }
+
+func (d *discardWriter) Header() http.Header         { return d.h }
+func (d *discardWriter) Write(b []byte) (int, error) { return len(b), nil }
+func (d *discardWriter) WriteHeader(int)             {}
 
 func formMap(v url.Values) map[string]string {
 	m := map[string]string{}
